@@ -1,11 +1,26 @@
 #![no_main]
-//! C07: adversarial rule / request / response pipelines; any unwind out of a public entry point is a violation.
+//! C07. Input layout: [8 bytes: seed of the structured part (rules with adversarial substitutions and mutations, requests)]
+//! [1 byte: split] [rest: split into a raw request URI and a response body, verbatim].
 use libfuzzer_sys::fuzz_target;
-use rio_verif::fuzzsupport::{from_bytes, report};
-use rio_verif::props::c07;
+use proptest::strategy::BoxedStrategy;
+use rio_verif::fuzzsupport::{from_seed, report};
+use rio_verif::props::{c07, c16};
 
-fuzz_target!(|data: &[u8]| {
-    if let Some(case) = from_bytes(&c07::strategy(), data) {
+thread_local! {
+    static S: BoxedStrategy<c07::Case> = c07::strategy();
+}
+
+fuzz_target!(init: { rio_verif::engine::install_panic_hook(); }, |data: &[u8]| {
+    if data.len() < 10 {
+        return;
+    }
+    if let Some(mut case) = S.with(|s| from_seed(s, &data[..8])) {
+        let rest = &data[9..];
+        let cut = (data[8] as usize * (rest.len() + 1)) >> 8;
+        let uri = String::from_utf8_lossy(&rest[..cut]).to_string();
+        case.raw_requests.truncate(1);
+        case.raw_requests.push((format!("/{uri}"), Some("example.com".into()), "X-A".into(), uri));
+        case.body = c16::Case::from_bytes(rest[cut..].to_vec());
         let out = c07::check(&case);
         if let Some(m) = out.failure {
             report("C07", "pipelines", &case, &m);
